@@ -714,7 +714,8 @@ parse_string_opts(char *argv[], int *curr_arg, char_filter_t *filter)
         filter->str_list[i] = (char *)malloc(sizeof(char) * (strlen(ptr) + 1));
         CHECK_ALLOC(filter->str_list[i], "filter->str_list[i]", "parse_string_opts");
         strcpy(filter->str_list[i], ptr); /* get the current string */
-        ptr = tempPtr + 1;                /* move pointer to next item or end of list */
+        if (tempPtr != NULL)
+            ptr = tempPtr + 1; /* move pointer to next item; after the last one the loop ends */
         i++;
     } /* end while */
 
@@ -832,7 +833,8 @@ parse_value_opts(char *argv[], int *curr_arg, dump_info_t **dump_opts, info_type
                 break;
         } /* end of switch */
         (*dump_opts)->all_types[i].type_of_info = info_type;
-        ptr                                     = tempPtr + 1;
+        if (tempPtr != NULL)
+            ptr = tempPtr + 1;
         i++;
     }
     (*dump_opts)->num_chosen = numItems; /* save the number of chosen SDSs so far */
